@@ -1,6 +1,6 @@
 SPECIFICATION Spec
 CONSTANTS
-  Scheme = "cmdsig"
+  Schemes = {"cmdsig"}
   MaxTamper = 1
   HashModel = "concat"
   PLens = {0}
